@@ -215,7 +215,7 @@ func (w *Worker) spawn(node string) *proc {
 	// address-space cap: a runaway allocation kills the worker, not the machine
 	cmd := exec.Command("/bin/sh", "-c", fmt.Sprintf("ulimit -v %d; exec \"$0\"", w.pool.memKB), bin)
 	cmd.Env = append(os.Environ(),
-		"GOMAXPROCS="+envOr("VERIF_WORKER_GOMAXPROCS", "2"),
+		"GOMAXPROCS="+envOr("VERIF_WORKER_GOMAXPROCS", "1"),
 		"GOTRACEBACK=single",
 		"SIMRT_OUT="+filepath.Join(w.dir, ".sim.out."+node),
 		"SIMRT_ERR="+filepath.Join(w.dir, ".sim.err."+node))
